@@ -56,8 +56,8 @@ def extra_eval(c, io, mo):
     return fails
 
 
-from props import gen_rpdac, gen_rpfc, gen_xbw, gen_htfc, gen_htfcit
-CFG = DC.Config("C04", D.PREFIX_KINDS, make_cmds, nsets=(12, 30), big=True, extra_eval=extra_eval, components=[gen_rpdac, gen_rpfc, gen_xbw, Slice(gen_htfc, 5, 2, 3), Slice(gen_htfcit, 8, 3, 2)],
+from props import gen_rpdac, gen_rpfc, gen_xbw, gen_htfc, gen_htfcit, gen_hhtfc
+CFG = DC.Config("C04", D.PREFIX_KINDS, make_cmds, nsets=(12, 30), big=True, extra_eval=extra_eval, components=[gen_rpdac, gen_rpfc, gen_xbw, Slice(gen_htfc, 5, 2, 3), Slice(gen_htfcit, 8, 3, 2), Slice(gen_hhtfc, 8, 2, 3)],
                 rule="the eight prefix-capable kinds; patterns: prefixes of members (every length up to 3, sampled beyond), members, "
                      "prefix + one byte, longer than every member, before / after all members, bytes occurring nowhere, and "
                      "boundary-directed prefixes whose match range spans 1, 2 or several buckets or ends exactly on a bucket "
